@@ -29,6 +29,11 @@ RULE = ("documents from the grammar-directed generator (acyclic fragments, @skip
 def corpus():
     out = []
     # witnesses of the defects repaired by the fix: commit (DESIGN.md section 6 row 37)
+    for text, vs in [("query Q($off: Boolean!) { hero { ...F @skip(if: $off) ...F } } fragment F on T { a { b { c } } }", {"off": True}),
+                     ("{ hero { ...F @include(if: false) x ...F } } fragment F on T { a { b { c } } }", {}),
+                     ("{ ...G ...F } fragment G on T { ...F @skip(if: true) } fragment F on T { a { b } }", {})]:
+        for limit in (-2, 0, 1, 2):
+            out.append({"text": text, "vars": vs, "limit": limit, "filter": None})
     for text in ["{ a }", "{ a b c }", "query Q { ...F } fragment F on T { a { b { c } } }",
                  "{ a { b } a { b { c { d } } } }", "{ ... { a { b { c } } } }",
                  "{ x: a { b } x: a { c { d { a } } } }",
@@ -61,12 +66,14 @@ def _distributions(maxd):
 
 
 def generate(rng, tier):
-    n = 400 if tier == "quick" else 6000
+    n = 300 if tier == "quick" else 5000
     cases = []
     for _ in range(n):
         text, variables = gen_exec.gen_document(rng)
         flt = rng.choice([None, None, None, "Op0", "Op1", "Nope", ""])
         cases.append({"text": text, "vars": variables, "limit": rng.randint(-1, 6), "filter": flt})
+        # limit -2 flags every measured operation, exposing each measured depth
+        cases.append({"text": text, "vars": variables, "limit": -2, "filter": None})
     maxd = 3 if tier == "quick" else 5
     for text, d in _distributions(maxd):
         for limit in ((d - 1, d) if tier == "quick" else range(0, d + 2)):
